@@ -21,8 +21,8 @@ for fid in sorted(reach):
     for s in sites(F, fn):
         if s["kind"].startswith("Overflow") or discharge(F, fn, s, dbname, tfn):
             continue
-        import re as _re
-        key = _re.sub(r"\{closure#\d+\}", "{closure}", "%s|%s|%s" % (fn.name, s["kind"], descriptor(fn, s)))
+        import panicrule as _P
+        key = _P.site_key(fn, s)
         rows.setdefault(key, {"count": 0})
         rows[key]["count"] += 1
 REASONS = [
